@@ -8,7 +8,7 @@ from . import filegen
 from .common import Driver
 
 THEOREM_MODULES = ["PygacModel.Theorems.C14"]
-RULE = ("KLM passes with channel-select sequences (random over {0,1,2}, all 3a, all 3b, all transition, 5-line passes, alternating, 3b with transition "
+RULE = ("KLM passes with channel-select sequences (random over {0,1,2}, all 3a, all 3b, all transition, 5-line passes, passes whose third sample is 0 / 1023 in every pixel, alternating, 3b with transition "
         "lines and no 3a line, single line) compared line by line with all-3a and all-3b reference passes of identical "
         "counts and telemetry, and with the Lean model's symbolic delivery; POD six-slot layout. A case = (pass, line); "
         "non-trivial = select value differs from the previous line or is 2; distinct by (format, sequence kind, seed, line)")
@@ -47,12 +47,42 @@ def sequence(kind, n, rng):
     raise ValueError(kind)
 
 
-def channels(ctx, fmt, n, seed, sw, other_bits, start_ms=None):
+def channels(ctx, fmt, n, seed, sw, other_bits, start_ms=None, third_const=None, want_reader=False):
     pb = filegen.PassBuilder(ctx, fmt, n, random.Random(repr((seed, fmt, n))), start_ms=start_ms)
     pb.samples[:, 2::5] = pb.nprng.integers(60, 1000, size=pb.samples[:, 2::5].shape)
+    if third_const is not None:
+        pb.samples[:, 2::5] = third_const       # every third sample of the pass carries one (extreme but valid) value
     pb.bitfield = ((other_bits << 2) | sw).astype(np.uint16)
     r = filegen.make_reader(ctx, fmt, data=pb.tobytes(), name=pb.dsname)
+    if want_reader:
+        tele = [np.array(x, dtype=float) for x in r.get_telemetry()]
+        return np.array(r.get_calibrated_channels()), pb, tele, [int(x) for x in r.scans["scan_line_number"]]
     return np.array(r.get_calibrated_channels()), pb
+
+
+def check_constant_third(ctx, fmt, n, kind, seed, value):
+    """Passes whose third sample is one constant in every pixel of every line (0 = saturated, 1023): the 3b lines must
+    deliver the thermal calibration of that count, judged by a direct calibration of the count among other counts."""
+    from . import c05
+    rng = random.Random(repr((seed, fmt, n, kind, value)))
+    sw = sequence(kind, n, rng)
+    other = np.array([rng.getrandbits(14) for _ in range(n)])
+    ch, pb, (prt, ict, space), nums = channels(ctx, fmt, n, seed, sw, other, third_const=value, want_reader=True)
+    ref = c05.real_thermal("noaa16", 3, nums, prt, ict[:, 0], space[:, 0], [value, 500, 640, 300])
+    payload = {"fmt": fmt, "n": n, "kind": kind, "seed": seed, "select": sw.tolist(), "third_const": value}
+    if ref[0] != "ok":
+        ctx.notes.append("constant-third reference calibration gave %s" % ref[0])
+        return
+    for l in range(n):
+        s = int(sw[l])
+        b = ch[l, :, 3]
+        want = ref[1][l, 0] if s == 0 else np.nan
+        okv = (np.isnan(b).all() and np.isnan(want)) or (not np.isnan(want) and np.allclose(b, want, atol=1e-6, equal_nan=False))
+        if not okv:
+            ctx.violation("%s %s, third sample %d in every pixel: line %d (select %d) delivers 3b = %s, the calibration of that count is %s" % (
+                fmt, kind, value, l, s, b[:2], want), dict(payload, line=l), cls="3b-constant:select%d" % s)
+            break
+        ctx.case((fmt, kind, seed, l, "const", value), nontrivial=True, branch="constant-third/select%d" % s)
 
 
 def check_klm(ctx, fmt, n, kind, seed, drv, start_ms=None):
@@ -124,6 +154,8 @@ def run(ctx):
     for j, kind in enumerate(["all-transition", "all3b", "all3a"]):      # shortest calibratable passes (one PRT cycle) and a LAC segment
         check_klm(ctx, "klmGac", 5, kind, ctx.seed * 1000 + k + 10 + j, drv)
     check_klm(ctx, "klmLac", 5, "all-transition", ctx.seed * 1000 + k + 14, drv)
+    for j, (kind, value) in enumerate([("random", 0), ("all3b", 0), ("switch-once", 1023), ("3b+transition", 0)]):
+        check_constant_third(ctx, "klmGac", 20, kind, ctx.seed * 1000 + k + 20 + j, value)
     check_klm(ctx, "klmGac", 60, "random", ctx.seed * 1000 + k + 3, drv)
     # a NOAA-16 pass lying entirely inside a listed scan-motor interval (2004-01-14): the later masking step must not
     # undo the 3a / 3b blanking
